@@ -404,3 +404,40 @@ sub_total!(c07_parse_twcc_15, parse_twcc_body, 15, nofmt);
 sub_total!(c07_parse_twcc_20, parse_twcc_body, 20, nofmt);
 sub_total!(c07_parse_fir_7, parse_fir_body, 7, nofmt);
 sub_total!(c07_parse_fir_24, parse_fir_body, 24, nofmt);
+
+// ---------------------------------------------------------------- SDES / BYE text items (RFC 3550 6.5, 6.6)
+/// build_sdes_body: the one-octet item length always equals the number of text bytes that
+/// follow it (otherwise the parser mis-frames everything after the item), chunk padded to 32 bits
+fn sdes_len_obligation<const L: usize>() {
+    let text = String::from_utf8(vec![b'a'; L]).unwrap();
+    let (ssrc, ty): (u32, u8) = (kani::any(), kani::any());
+    kani::assume(ty != 0);
+    let s = SourceDescription { chunks: vec![SdesChunk { ssrc, items: vec![SdesItem { ty, text }] }] };
+    let body = build_sdes_body(&s);
+    let n = body[5] as usize;
+    assert!(body[0..4] == ssrc.to_be_bytes() && body[4] == ty);
+    assert!(n == if L > 255 { 255 } else { L });
+    // item bytes, then the terminating zero item and padding to a 32-bit boundary
+    assert!(body.len() == (4 + 2 + n + 1 + 3) / 4 * 4);
+    let mut i = 6 + n; while i < body.len() { assert!(body[i] == 0); i += 1; }
+    core::mem::forget(s);
+}
+#[kani::proof]
+#[kani::unwind(310)]
+fn c15_sdes_item_length_3() { sdes_len_obligation::<3>(); }
+#[kani::proof]
+#[kani::unwind(310)]
+fn c15_sdes_item_length_255() { sdes_len_obligation::<255>(); }
+#[kani::proof]
+#[kani::unwind(310)]
+fn c15_sdes_item_length_300() { sdes_len_obligation::<300>(); }
+/// same law for the BYE reason
+#[kani::proof]
+#[kani::unwind(310)]
+fn c15_bye_reason_length_300() {
+    let reason = String::from_utf8(vec![b'a'; 300]).unwrap();
+    let b = Goodbye { sources: vec![kani::any()], reason: Some(reason) };
+    let body = build_goodbye_body(&b);
+    assert!(body[4] == 255 && body.len() == 4 + 1 + 255);
+    core::mem::forget(b);
+}
